@@ -100,3 +100,57 @@ pub fn realize<T: Tbl>(ctx: &mut Ctx, ev: &Ev, n: usize, blocks: &[u64]) -> Opti
         }
     }
 }
+
+/// Std-trait routes to equality and order of a value type (derived or hand-written `PartialEq`, `Eq`,
+/// `PartialOrd`, `Ord`, `Hash`, `Clone`): given whether `a` and `b` *mean* the same thing, every route has to
+/// agree — operators, `cmp`/`partial_cmp`, hashing, set collections, sorting, `min`/`max`, `clone`/`clone_from`.
+/// Returns the name of the first route that disagrees.
+pub fn eq_ord_hash_routes<T>(a: &T, b: &T, same: bool) -> Result<usize, &'static str>
+where
+    T: Eq + Ord + std::hash::Hash + Clone,
+{
+    use std::cmp::Ordering;
+    use std::collections::{BTreeSet, HashSet};
+    use std::hash::{Hash, Hasher};
+    let h = |x: &T| {
+        let mut s = std::collections::hash_map::DefaultHasher::new();
+        x.hash(&mut s);
+        s.finish()
+    };
+    let c = a.cmp(b);
+    let checks: [(&'static str, bool); 16] = [
+        ("==", (a == b) == same),
+        ("!=", (a != b) == !same),
+        ("cmp-equal-iff-same", (c == Ordering::Equal) == same),
+        ("cmp-antisymmetric", b.cmp(a) == c.reverse()),
+        ("partial_cmp", a.partial_cmp(b) == Some(c)),
+        ("<", (a < b) == (c == Ordering::Less)),
+        ("<=", (a <= b) == (c != Ordering::Greater)),
+        (">", (a > b) == (c == Ordering::Greater)),
+        (">=", (a >= b) == (c != Ordering::Less)),
+        ("hash", !same || h(a) == h(b)),
+        ("HashSet", [a.clone(), b.clone()].into_iter().collect::<HashSet<T>>().len() == if same { 1 } else { 2 }),
+        ("BTreeSet", [a.clone(), b.clone()].into_iter().collect::<BTreeSet<T>>().len() == if same { 1 } else { 2 }),
+        ("min/max", {
+            let (lo, hi) = (a.clone().min(b.clone()), a.clone().max(b.clone()));
+            lo.cmp(&hi) != Ordering::Greater && (lo == *a || lo == *b) && (hi == *a || hi == *b)
+        }),
+        ("sort", {
+            let mut v = vec![a.clone(), b.clone(), a.clone()];
+            v.sort();
+            v.windows(2).all(|w| w[0].cmp(&w[1]) != Ordering::Greater)
+        }),
+        ("clone", a.clone() == *a && h(&a.clone()) == h(a)),
+        ("clone_from", {
+            let mut x = a.clone();
+            x.clone_from(b);
+            x == *b && h(&x) == h(b)
+        }),
+    ];
+    for (name, ok) in checks.iter() {
+        if !*ok {
+            return Err(name);
+        }
+    }
+    Ok(checks.len())
+}
